@@ -26,6 +26,7 @@ type run struct {
 	step    int
 	decided map[kit.OpID]string // first decided value seen per operator (real)
 	attack  bool
+	faulty  bool // broadcast errors are injected: a processing call may return that error
 }
 
 func toInt(v any) int {
@@ -63,7 +64,21 @@ func newRun(b vh.Behaviour, res *vh.Result) *run {
 	}
 	height := uint64(toInt(p["LeaderOffset"]))
 	w := kit.NewWorld(n, byz, height, sv, spectypes.BNRoleAttester)
-	return &run{w: w, res: res, b: b, decided: map[kit.OpID]string{}, attack: strings.HasPrefix(b.Kind, "attack")}
+	r := &run{w: w, res: res, b: b, decided: map[kit.OpID]string{}, attack: strings.HasPrefix(b.Kind, "attack")}
+	// fault injection on the network interface: the publish call errors although the message went out
+	switch fb := vh.Str(p, "failBroadcasts"); fb {
+	case "":
+	case "all":
+		w.FailBroadcast = func(kit.OpID, *specqbft.SignedMessage) bool { return true }
+		r.faulty = true
+	default:
+		types := map[string]specqbft.MessageType{"proposal": specqbft.ProposalMsgType, "prepare": specqbft.PrepareMsgType,
+			"commit": specqbft.CommitMsgType, "rc": specqbft.RoundChangeMsgType}
+		t := types[fb]
+		w.FailBroadcast = func(_ kit.OpID, m *specqbft.SignedMessage) bool { return m.Message.MsgType == t && len(m.Signers) == 1 }
+		r.faulty = true
+	}
+	return r
 }
 
 func (r *run) violate(sig, desc string) {
@@ -130,7 +145,7 @@ func (r *run) apply(a map[string]any) {
 	from := kit.OpID(vh.Int(a, "from"))
 	round := vh.Int(a, "round")
 	value := vh.Str(a, "value")
-	ok := !r.attack
+	ok := !r.attack && !r.faulty
 	switch name {
 	case "init", "Switch":
 	case "Start":
@@ -182,9 +197,10 @@ func (r *run) apply(a map[string]any) {
 	case "Timeout", "ContTimeout":
 		before := w.Project(to)
 		poolBefore := len(w.Pool)
-		err := w.Timeout(to, specqbft.Round(before.Round))
+		// the event the real timer would deliver: for the round it was last armed for
+		err := w.TimeoutArmed(to)
 		after := w.Project(to)
-		if err != nil {
+		if err != nil && !r.faulty {
 			r.diverge("timeout", "ok", err.Error())
 		}
 		// C07 (3): before the cut-off a round timeout moves to the next round and announces it
@@ -198,6 +214,27 @@ func (r *run) apply(a map[string]any) {
 			if after.Round != before.Round+1 || !announced || after.AccValue != "none" {
 				r.violate("C07:timeout-step", fmt.Sprintf("operator %d timed out in round %d: round now %d, round-change for %d announced=%v, accepted proposal now %s",
 					to, before.Round, after.Round, before.Round+1, announced, after.AccValue))
+			}
+		}
+	case "RecvRelabeled":
+		// prepares the operator already verified, re-labelled as commits with the same signature bytes
+		for _, s := range sortedIDs(vh.Ints(a, "signers")) {
+			p := w.FindSimple(specqbft.PrepareMsgType, s, round, value)
+			if p == nil {
+				continue
+			}
+			c := &specqbft.SignedMessage{Signature: append([]byte{}, p.Signature...), Signers: []kit.OpID{s}, Message: p.Message}
+			c.Message.MsgType = specqbft.CommitMsgType
+			before := w.Project(to)
+			dec, err := w.Deliver(to, c)
+			after := w.Project(to)
+			if err == nil && (dec != nil || !reflect.DeepEqual(before, after)) {
+				r.violate("C02:signature-accepted-for-another-message", fmt.Sprintf("operator %d accepted a commit carrying the signature operator %d made over its prepare", to, s))
+			}
+			if dec != nil {
+				if why := w.VerifyCert(dec); why != "" {
+					r.violate("C02:invalid-certificate", fmt.Sprintf("operator %d reported a decision whose certificate does not verify (%s) after re-labelled prepares", to, why))
+				}
 			}
 		}
 	case "RecvDecided", "ContDecided":
